@@ -317,7 +317,7 @@ theorem parseMembers_member (fuel : Nat) (k : Bytes) (hk : Utf8.validUtf8 k = tr
 
 mutual
 theorem parse_render (N : NumLaws) : (d : Doc) → DocTextOK d → ∀ (fuel : Nat) (rest : Bytes),
-    jneed d ≤ fuel → delimStart rest = true →
+    jneed d ≤ fuel → numEnd rest = true →
     parseValue fuel (renderJson d ++ rest) = some (treeOf jsonEnc d, rest)
   | .int v, _, fuel, rest, hf, hr => by
     obtain ⟨f, rfl⟩ : ∃ f, fuel = f + 1 := ⟨fuel - 1, by simp [jneed] at hf; omega⟩
@@ -327,7 +327,7 @@ theorem parse_render (N : NumLaws) : (d : Doc) → DocTextOK d → ∀ (fuel : N
       | nil => exact absurd hfi this.1
       | cons c cs => exact ⟨c, cs, rfl, this.2 c (by rw [hfi]; simp)⟩
     simp only [renderJson, treeOf, jsonEnc, jsonTreeLeaf]
-    exact parseValue_number f _ rest c cs hc hd (parseNumber_formatInt v rest (numEnd_of_delim rest hr))
+    exact parseValue_number f _ rest c cs hc hd (parseNumber_formatInt v rest hr)
   | .f64 b, _, fuel, rest, hf, hr => by
     obtain ⟨f, rfl⟩ : ∃ f, fuel = f + 1 := ⟨fuel - 1, by simp [jneed] at hf; omega⟩
     simp only [renderJson, jsonFloat, treeOf, jsonEnc, jsonTreeLeaf]
@@ -346,7 +346,7 @@ theorem parse_render (N : NumLaws) : (d : Doc) → DocTextOK d → ∀ (fuel : N
       · have h1' : ((Strconv.decodeBits Strconv.f64 b).cls == 1) = false := by simpa using h1
         simp only [h1', Bool.false_eq_true, ↓reduceIte]
         obtain ⟨c, cs, hc, hd⟩ := N.float_head b h2' h1'
-        exact parseValue_number f _ rest c cs hc hd (N.float_tok b rest h2' h1' (numEnd_of_delim rest hr))
+        exact parseValue_number f _ rest c cs hc hd (N.float_tok b rest h2' h1' hr)
   | .bool b, _, fuel, rest, hf, _ => by
     obtain ⟨f, rfl⟩ : ∃ f, fuel = f + 1 := ⟨fuel - 1, by simp [jneed] at hf; omega⟩
     cases b
